@@ -35,18 +35,19 @@ fn main() {
         i += 1;
     }
     std::panic::set_hook(Box::new(|_| {}));
-    // watchdog: an operation that does not return within 20 s is an endless loop
+    // watchdog: an operation that does not return within 5 s is an endless loop
     std::thread::spawn(|| {
         let mut last = util::PROGRESS.load(Ordering::Relaxed);
         let mut stale = 0;
         loop {
-            std::thread::sleep(std::time::Duration::from_secs(2));
+            std::thread::sleep(std::time::Duration::from_millis(500));
             let now = util::PROGRESS.load(Ordering::Relaxed);
             if now == last {
                 stale += 1;
                 if stale >= 10 {
-                    println!("HANG");
-                    std::io::stdout().flush().ok();
+                    // stdout is locked by the main thread: report through the exit status only
+                    // (the case being run was announced with a flushed "begin <id>" line)
+                    eprintln!("HANG");
                     std::process::exit(3);
                 }
             } else {
